@@ -11,7 +11,7 @@ Ticket token (space free), 13 comma separated fields, or `nil`:
 * recipient: `-` or `<nodeKey>/<multiSigKey>/<idx>`; order: `-` or `<hex nonce>/<sig>`
 
 Ops → output
-* `offerdigest T` / `orderdigest T`          → `ok:<hex sha256>` | `err:<kind>`
+* `offerdigest T` / `orderdigest T`          → `ok:<hex sha256>` | `err/pre`
 * `verifyoffer T` / `verifyorder T`          → `ok` | `err:<kind>`
 * `signoffer T k`                            → `ok T'` | `err:<kind>`
 * `signorder T nonce k`                      → `ok T'` | `err:<kind> T'`
@@ -35,6 +35,10 @@ def errName : Err → String
   | .pushOut => "push-out" | .bidAmt => "bid-amt" | .minUnits => "min-units" | .exists => "exists"
   | .unknown => "unknown" | .bidLease => "bid-lease" | .bidPush => "bid-push"
   | .bidUnannounced => "bid-unannounced" | .bidZeroConf => "bid-zeroconf"
+
+/-- outcome class compared with the real code: which call failed, not which message it printed -/
+def errOut : Err → String
+  | .badSig => "err/sig" | .panic => "err:panic" | .facts => "err:facts" | _ => "err/pre"
 
 def pOptKey (s : String) : Option (Option Key) :=
   if s == "-" then some none else s.toNat?.map some
@@ -96,9 +100,9 @@ def fOptTicket : Option Ticket → String
   | none => "nil" | some t => fTicket t
 
 def fUnit : Except Err Unit → String
-  | .ok () => "ok" | .error e => "err:" ++ errName e
+  | .ok () => "ok" | .error e => errOut e
 def fDigest : Except Err Bytes → String
-  | .ok d => "ok:" ++ hex d | .error e => "err:" ++ errName e
+  | .ok d => "ok:" ++ hex d | .error e => errOut e
 
 abbrev DrvSt := Unit
 def drvInit : DrvSt := ()
@@ -113,12 +117,12 @@ def run (args : List String) : Option String :=
     let t ← pTicket t; let k ← k.toNat?
     pure (match signOffer sha t k with
       | .ok t' => "ok " ++ fTicket t'
-      | .error e => "err:" ++ errName e)
+      | .error e => errOut e)
   | ["signorder", t, n, k] => do
     let t ← pTicket t; let n ← unhex n; let k ← k.toNat?
     pure (match signOrder sha t n k with
       | (t', none) => "ok " ++ fOptTicket t'
-      | (t', some e) => "err:" ++ errName e ++ " " ++ fOptTicket t')
+      | (t', some e) => errOut e ++ " " ++ fOptTicket t')
   | ["provider", t, at_, amt, mu, n, ak, k, bl, bs, bu, bz] => do
     let bl ← bl.toNat?; let bs ← bs.toInt?; let bu ← pBool bu; let bz ← pBool bz
     let t ← pTicket1 t
@@ -127,22 +131,22 @@ def run (args : List String) : Option String :=
     let bid : BidTerms := ⟨at_, amt, mu, n, bl, bs, bu, bz⟩
     pure (match validateAndSign sha t bid ak k with
       | (t', none) => "ok " ++ fTicket t'
-      | (t', some e) => "err:" ++ errName e ++ " " ++ fTicket t')
+      | (t', some e) => errOut e ++ " " ++ fTicket t')
   | ["checkoffer", at_, cap, push] => do
     let at_ ← at_.toNat?; let cap ← cap.toInt?; let push ← push.toInt?
     pure (match checkOfferParams at_ cap push baseUnit with
-      | none => "ok" | some e => "err:" ++ errName e)
+      | none => "ok" | some e => errOut e)
   | ["validateordered", t, known] => do
     let t ← pTicket1 t
     let known ← pBool known
     pure (match validateOrderedTicket sha t known with
-      | none => "ok" | some e => "err:" ++ errName e)
+      | none => "ok" | some e => errOut e)
   | ["register", t, known, nk, mk, idx] => do
     let t ← pTicket1 t
     let known ← pBool known; let nk ← nk.toNat?; let mk ← mk.toNat?; let idx ← idx.toNat?
     pure (match registerSidecar sha t known nk mk idx with
       | .ok t' => "ok " ++ fTicket t'
-      | .error e => "err:" ++ errName e)
+      | .error e => errOut e)
   | _ => none
 
 def drvStep (s : DrvSt) (args : List String) : DrvSt × String :=
